@@ -224,3 +224,145 @@ Proof.
       cbn [wsw w_tok set_vamm set_eng]. rewrite E5. unfold fee_of. rewrite Htoll, Hspread, Hvc.
       destruct (t_native (w_tok w)); lia.
 Qed.
+
+(* what the fee messages pay to the fee pool, and that they pull from nobody but the payer *)
+Lemma paid_fees_pool w from vamm notional msgs spread toll : 0 <= notional ->
+  transfer_fees w from vamm notional = Ok (msgs, spread, toll) ->
+  e_ifund (ec (w_eng w)) <> e_feepool (ec (w_eng w)) ->
+  paid_to (e_feepool (ec (w_eng w))) msgs = toll.
+Proof.
+  intros Hn H Hd. apply transfer_fees_spec in H; [|exact Hn]. destruct H as (v & _ & _ & _ & ->).
+  rewrite paid_to_app. unfold execute_transfer_from.
+  destruct (t_native (w_tok w)); destruct (Z.eqb_spec spread 0); destruct (Z.eqb_spec toll 0); cbn [negb paid_to sm_msg];
+  rewrite ?Z.eqb_refl; repeat destr_if; zb; subst; try lia; try congruence.
+Qed.
+
+Lemma pulled_fees_other w from vamm notional msgs spread toll a : 0 <= notional ->
+  transfer_fees w from vamm notional = Ok (msgs, spread, toll) -> a <> from -> pulled_from a msgs = 0.
+Proof.
+  intros Hn H Ha. apply transfer_fees_spec in H; [|exact Hn]. destruct H as (v & _ & _ & _ & ->).
+  rewrite pulled_from_app. unfold execute_transfer_from.
+  repeat destr_if; cbn [pulled_from sm_msg]; unfold ind; repeat destr_if; zb; try lia; congruence.
+Qed.
+
+(* the pools' side of the same transaction: the fee pool receives exactly the toll fee on the open notional,
+   and the insurance fund's balance changes by the spread fee minus whatever it was drawn for the payout *)
+Theorem close_position_tx_pool f w t v lim funds w' :
+  exec_op f w (OEngine t (EClosePosition v lim) funds) = Ok w' ->
+  let p := read_position (w_eng w) v t in
+  pos_wf p -> cpf_wf (w_eng w) v -> 0 < e_dec (ec (w_eng w)) ->
+  t <> A_ENGINE -> t <> A_IFUND -> t <> if_engine (w_if w) ->
+  t <> e_ifund (ec (w_eng w)) -> t <> e_feepool (ec (w_eng w)) ->
+  find_position (w_eng w') v t = None ->
+  let pool := e_feepool (ec (w_eng w)) in
+  pool <> A_ENGINE -> pool <> A_IFUND -> pool <> if_engine (w_if w) -> pool <> e_ifund (ec (w_eng w)) ->
+  exists vm, get_vamm w v = Ok vm /\
+    bal (w_tok w') pool = bal (w_tok w) pool + fee_of vm (p_notional p) (v_toll (vc vm)).
+Proof.
+  intros H p Hp Hc HD Ht1 Ht2 Ht3 Ht4 Ht5 Hnone pool Hq1 Hq2 Hq3 Hq4.
+  cbn [exec_op] in H. revert H. generalize FUEL. intros fuel H.
+  destruct (attach_funds w t A_ENGINE funds) as [w0|] eqn:Ea; [|discriminate]. cbn [bind] in H.
+  cbn [engine_execute] in H.
+  destruct (e_close_position w0 t v lim) as [[w1 subs]|] eqn:Ec; [|discriminate]. cbn [bind fst snd] in H.
+  destruct (dispatch fuel f w1 0 A_ENGINE subs) as [[wf nf]|] eqn:Ed; [|discriminate]. cbn [bind fst] in H. inv_ok.
+  pose proof (attach_funds_core _ _ _ _ _ Ea) as [E1 E2].
+  assert (E3 : w_vamms w0 = w_vamms w /\ w_if w0 = w_if w /\ t_native (w_tok w0) = t_native (w_tok w)).
+  { unfold attach_funds in Ea. destruct (funds =? 0); [inv_ok; auto|]. minv Ea. inv_ok. cbn [w_vamms w_if set_tok w_tok].
+    match goal with Hx : tok_move _ _ _ _ = Ok _ |- _ => apply tok_move_total in Hx; destruct Hx as [_ Hx]; rewrite Hx end. auto. }
+  destruct E3 as (E3 & E4 & E5).
+  assert (Hbal0 : bal (w_tok w0) t = bal (w_tok w) t - funds).
+  { unfold attach_funds in Ea. destruct (Z.eqb_spec funds 0) as [->|Hf]; [inv_ok; lia|]. minv Ea. inv_ok. cbn [w_tok set_tok].
+    match goal with Hx : tok_move _ _ _ _ = Ok _ |- _ => rewrite (tok_move_bal _ _ _ _ _ t Hx) end.
+    unfold ind. rewrite Z.eqb_refl. destruct (Z.eqb_spec t A_ENGINE); [contradiction|]. lia. }
+  assert (Hp0 : read_position (w_eng w0) v t = p) by (unfold p; rewrite E1; reflexivity).
+  pose proof (close_position_choice _ _ _ _ _ _ Ec) as (vm & over & Hvm & _ & Hnz & Hbranch). cbv zeta in Hbranch.
+  rewrite Hp0, E1 in Hbranch. rewrite Hp0 in Hnz.
+  assert (Hfound : find_position (w_eng w0) v t = Some p).
+  { rewrite <- Hp0. apply read_position_found. rewrite Hp0. exact Hnz. }
+  destruct (over && (e_plr (ec (w_eng w)) <? e_dec (ec (w_eng w)))).
+  - (* partial close: a position is left, contradicting the hypothesis *)
+    exfalso. subst subs.
+    apply dispatch_single in Ed; [|reflexivity|reflexivity].
+    destruct Ed as (k & wa & ev & wb & sb & _ & Ex & Er & n1 & Ed).
+    cbn [swap_output_msg sm_msg sm_id] in Ex, Er.
+    apply exec_swap_output in Ex. destruct Ex as (vm1 & vm' & qa & ba & _ & _ & -> & ->).
+    unfold contract_reply, engine_reply in Er. rewrite Z.eqb_refl in Er.
+    change (PARTIAL_CLOSE_ID =? INCREASE_ID) with false in Er. change (PARTIAL_CLOSE_ID =? DECREASE_ID) with false in Er.
+    change (PARTIAL_CLOSE_ID =? REVERSE_ID) with false in Er. change (PARTIAL_CLOSE_ID =? CLOSE_ID) with false in Er.
+    change (PARTIAL_CLOSE_ID =? PARTIAL_CLOSE_ID) with true in Er. cbn iota in Er.
+    pose proof (partial_close_position_reply_leafy _ _ _ _ _ Er) as Hl.
+    assert (Htm : exists tm, e_tmp (w_eng (set_vamm w1 v vm')) = Some tm /\ ts_vamm tm = v /\ ts_trader tm = t).
+    { unfold e_close_position in Ec. arm Ec; try discriminate.
+      all: eexists; cbn [w_eng set_vamm set_eng e_tmp eng_set_tmp]; split; [reflexivity|split; reflexivity]. }
+    destruct Htm as (tm & Htm & Hv & Htt).
+    pose proof (partial_close_position_reply_stamps _ _ _ _ _ tm Er Htm) as (p' & Hf' & _). rewrite Hv, Htt in Hf'.
+    apply dispatch_leafy_core in Ed; [|exact Hl]. destruct Ed as (Ee & _). rewrite Ee in Hnone. congruence.
+  - (* whole close *)
+    pose proof (close_position_whole _ _ _ _ _ _ Ec) as Hwh. cbv zeta in Hwh. rewrite Hp0 in Hwh.
+    destruct Hwh as (-> & -> & _ & Hpause); [eexists; exact Hbranch|].
+    unfold internal_close_position in Ed. cbn [fst snd] in Ed.
+    apply dispatch_single in Ed; [|reflexivity|reflexivity].
+    destruct Ed as (k & wa & ev & wb & sb & _ & Ex & Er & n1 & Ed).
+    cbn [swap_output_msg sm_msg sm_id] in Ex, Er. rewrite dir_side_inv in Ex.
+    apply exec_swap_output in Ex. destruct Ex as (vm1 & vm' & qa & ba & Hz1 & Hsw & -> & ->).
+    cbn [w_vamms set_eng w_env] in Hz1, Hsw. rewrite E3 in Hz1. rewrite E2 in Hsw.
+    assert (vm1 = vm) by (unfold get_vamm in Hvm; rewrite E3, Hz1 in Hvm; congruence). subst vm1.
+    unfold contract_reply, engine_reply in Er. rewrite Z.eqb_refl in Er.
+    change (CLOSE_ID =? INCREASE_ID) with false in Er. change (CLOSE_ID =? DECREASE_ID) with false in Er.
+    change (CLOSE_ID =? REVERSE_ID) with false in Er. change (CLOSE_ID =? CLOSE_ID) with true in Er. cbn iota in Er.
+    set (tmp := mkTmp v t (direction_to_side (p_dir p)) (sval (p_size p)) 0 (p_notional p) 0 szero szero false) in *.
+    set (wsw := set_vamm (set_eng w0 (eng_set_tmp (w_eng w0) (Some tmp))) v vm') in *.
+    assert (Htmp : e_tmp (w_eng wsw) = Some tmp) by reflexivity.
+    assert (Hget : get_position (w_eng wsw) (w_env wsw) (ts_vamm tmp) (ts_trader tmp) (ts_side tmp) = p).
+    { unfold get_position. cbn [wsw w_eng set_vamm set_eng tmp ts_vamm ts_trader]. rewrite find_set_tmp, Hfound. reflexivity. }
+    assert (Hqa : 0 <= qa /\ ba = sval (p_size p) /\ vc vm' = vc vm).
+    { pose proof (swap_output_vc _ _ _ _ _ _ _ Hsw) as Hvc. cbn [fst] in Hvc.
+      unfold swap_output in Hsw. minv Hsw. inv_ok.
+      match goal with Ho : output_price _ _ _ _ _ = Ok _ |- _ => apply output_price_nonneg in Ho end. auto. }
+    destruct Hqa as (Hqa & -> & Hvc).
+    assert (Hfo : funding_owed wsw v p = funding_owed w v p).
+    { unfold funding_owed. cbn [wsw w_eng set_vamm set_eng]. unfold cumulative_premium_fraction, read_vmap. cbn [e_vmap eng_set_tmp ec]. rewrite E1. reflexivity. }
+    pose proof (close_position_reply_leafy _ _ _ _ _ Er) as Hl.
+    pose proof (close_position_reply_pulled wsw (sval (p_size p)) qa wb sb tmp Htmp) as Hpull. cbv zeta in Hpull. rewrite Hget in Hpull.
+    specialize (Hpull ltac:(apply Hp) Er).
+    pose proof (close_position_reply_spec wsw (sval (p_size p)) qa wb sb tmp Htmp) as Hspec. cbv zeta in Hspec. rewrite Hget in Hspec.
+    cbn [tmp ts_vamm ts_trader ts_open_notional ts_upnl] in Hspec, Hpull.
+    assert (Hec : ec (w_eng wsw) = ec (w_eng w)) by (cbn [wsw w_eng set_vamm set_eng eng_set_tmp ec]; rewrite E1; reflexivity).
+    specialize (Hspec Hp).
+    assert (Hcw : cpf_wf (w_eng wsw) v).
+    { unfold cpf_wf, cumulative_premium_fraction, read_vmap in *. cbn [wsw w_eng set_vamm set_eng e_vmap eng_set_tmp]. rewrite E1. exact Hc. }
+    specialize (Hspec Hcw ltac:(rewrite Hec; exact HD) Hqa ltac:(apply Hp) eq_refl ltac:(rewrite Hec; exact Ht4) ltac:(rewrite Hec; exact Ht5) Er).
+    rewrite Hfo in Hspec. destruct Hspec as (Heq & Htr & _ & _ & Htok & _).
+    assert (Hif : w_if wb = w_if w).
+    { assert (Hx : w_if wb = w_if wsw) by (unfold close_position_reply in Er; arm Er; reflexivity). rewrite Hx. cbn [wsw w_if set_vamm set_eng]. exact E4. }
+    pose proof (dispatch_leafy_flow _ _ _ _ _ _ _ _ Ed Hl) as [_ Hflow].
+    exists vm. split; [unfold get_vamm in *; rewrite E3 in Hvm; exact Hvm|].
+    rewrite (Hflow pool). rewrite Hif. rewrite flow_split by assumption.
+    assert (Hbalp : bal (w_tok w0) pool = bal (w_tok w) pool).
+    { unfold attach_funds in Ea. destruct (Z.eqb_spec funds 0) as [->|Hf]; [inv_ok; reflexivity|]. minv Ea. inv_ok. cbn [w_tok set_tok].
+      match goal with Hx : tok_move _ _ _ _ = Ok _ |- _ => apply (tok_move_frame _ _ _ _ _ pool Hx) end; [unfold pool; congruence|exact Hq1]. }
+    rewrite Htok. cbn [wsw w_tok set_vamm set_eng]. rewrite Hbalp.
+    assert (Hpw : pool = e_feepool (ec (w_eng wsw))) by (unfold pool; rewrite Hec; reflexivity).
+    assert (Hpt : pool <> t) by (unfold pool; congruence).
+    assert (Hpi : e_ifund (ec (w_eng wsw)) <> e_feepool (ec (w_eng wsw))) by (rewrite Hec; unfold pool in Hq4; congruence).
+    (* what the reply's messages pay to / pull from the pool *)
+    unfold close_position_reply, need_tmp in Er. rewrite Htmp in Er. cbn [bind] in Er.
+    cbv zeta in Er. rewrite Hget in Er.
+    arm Er.
+    all: rewrite ?paid_to_app, ?pulled_from_app.
+    all: repeat match goal with
+         | Hw : withdraw _ _ _ _ _ = Ok _ |- _ =>
+             rewrite (paid_to_withdraw _ _ _ _ _ _ _ pool Hw) by (cbn [tmp ts_trader]; congruence);
+             rewrite (pulled_from_withdraw _ _ _ _ _ _ _ pool Hw); clear Hw
+         end.
+    all: cbn [paid_to pulled_from].
+    all: try (zb; match goal with Hz : p_notional _ = 0 |- _ => unfold fee_of; rewrite Hz, Z.mul_0_l; unfold Z.div; cbn; lia end).
+    all: match goal with Hf : transfer_fees _ _ _ _ = Ok (?fm, ?sp, ?tl) |- _ =>
+           pose proof Hf as Hf2; apply transfer_fees_spec in Hf2; [|apply Hp];
+           destruct Hf2 as (v1 & Hv1 & Htoll & _ & _);
+           assert (v1 = vm') by (unfold get_vamm in Hv1; cbn [wsw w_vamms set_vamm] in Hv1; rewrite zfind_zset_same in Hv1; congruence); subst v1;
+           rewrite (pulled_fees_other _ _ _ _ _ _ _ pool ltac:(apply Hp) Hf) by exact Hpt;
+           rewrite Hpw; rewrite (paid_fees_pool _ _ _ _ _ _ _ ltac:(apply Hp) Hf) by exact Hpi;
+           unfold fee_of; rewrite Htoll, Hvc; lia
+         end.
+Qed.
